@@ -1,5 +1,86 @@
-(* C23 — A random array is one fixed realization (placeholder for the seed-derivation model). *)
-From DA Require Import PyBase.
+(* C23 — "A random array is one fixed realization."
+
+   Statements only; model in theories/RngModel.v (the generator's SeedSequence as a state machine:
+   spawn(n) hands out the children (entropy, c), ..., (entropy, c + n - 1) and advances the counter;
+   a Random node derives one seed per block ONCE, when it is constructed, and caches them; block i
+   of the realization is draw(seed_i, size_i) for numpy's injective oracle `draw`), proofs in
+   theories/RngModelFacts.v.  The harness (harness/c23.py, model_family) reads the real per-block
+   SeedSequences out of Random nodes for generated (seed, shapes, chunkings) histories of one
+   generator and compares entropy / spawn keys / final n_children_spawned with `arrays_ok`. *)
+From Coq Require Import List Bool ZArith.
+From DA Require Import PyBase RngModel RngModelFacts.
+Import ListNotations.
 Open Scope Z_scope.
-Example C23_placeholder : zsum [1;2;3] = 6. Proof. reflexivity. Qed.
-Print Assumptions C23_placeholder.
+
+(* every derived program (any function of the realization's blocks: slices, rechunks, elemwise,
+   reductions, fused or not) reads the blocks drawn from the seeds fixed at construction,
+   whatever the generator does afterwards (further arrays `later`) and however often it is
+   recomputed: `eval` is a function of the node alone; one block per chunk *)
+Theorem C23_seeds_fixed :
+  forall (B : Type) (draw : seed -> Z -> B) (R : Type) (prog : list B -> R) g sizes later,
+  let '(n, g1) := mk_random g sizes in
+  let '(_, g2) := mk_arrays g1 later in
+  eval draw prog n =
+    prog (map (fun p => draw (fst p) (snd p)) (combine (fst (spawn g (length sizes))) sizes)) /\
+  length (realization draw n) = length sizes.
+Proof. exact seeds_fixed. Qed.
+
+(* same root seed, same sequence of (shape, chunks): the j-th array has the same seeds, in closed
+   form: entropy = the root seed, spawn keys = the block indices shifted by the number of blocks of
+   all earlier arrays; hence the same realization *)
+Theorem C23_rebuild_same :
+  forall root sizess j, (j < length sizess)%nat ->
+  r_seeds (nth j (fst (mk_arrays (fresh_gen root) sizess)) {| r_sizes := []; r_seeds := [] |}) =
+  map (fun i => (root, (fold_right (fun s a => length s + a) 0 (firstn j sizess) + i)%nat))
+      (seq 0 (length (nth j sizess []))).
+Proof. exact rebuild_same. Qed.
+
+(* two successive arrays from one generator: each gets pairwise distinct seeds, and the two seed
+   sets are disjoint *)
+Theorem C23_generator_advances :
+  forall g n1 n2,
+  let '(s1, g1) := spawn g n1 in let '(s2, _) := spawn g1 n2 in
+  NoDup s1 /\ NoDup s2 /\ forall x, In x s1 -> ~ In x s2.
+Proof. exact generator_advances. Qed.
+
+(* pickling carries the seeds: whatever state the generator snapshot inside the pickle is in *)
+Theorem C23_reduce_roundtrip : forall g_now n, unpickle (reduce g_now n) = n.
+Proof. exact reduce_roundtrip. Qed.
+
+(* REFUTED: "re-constructing a Random node is harmless".  A node constructed again from the same
+   generator once that generator has advanced past it (what Expr.lower_once does to a node whose
+   operand was rewritten: type(out)(new_operands...); what unpickling without the cached _info
+   would do) gets seeds NONE of which is one of the original ones: a different realization.
+   Proved for every generator state and every block layout (stronger than an existential);
+   the real code does this for random arrays with array-valued parameters (finding C23-A). *)
+Theorem C23_reconstruct_respawns_refuted :
+  forall g sizes,
+  let '(n, g1) := mk_random g sizes in
+  forall g_now, g_root g_now = g_root g -> (g_counter g1 <= g_counter g_now)%nat ->
+  forall x, In x (r_seeds n) -> ~ In x (r_seeds (fst (reconstruct g_now n))).
+Proof. exact reconstruct_respawns. Qed.
+
+Theorem C23_reduce_without_cache_differs :
+  exists g sizes, let '(n, g1) := mk_random g sizes in
+  r_seeds (unpickle (reduce_without_cache g1 n)) <> r_seeds n.
+Proof. exists (fresh_gen 42), [3; 3]. vm_compute. discriminate. Qed.
+
+(* ---- Examples ---- *)
+Example C23_ex_arrays :
+  map r_seeds (fst (mk_arrays (fresh_gen 42) [[2; 2; 1]; [4]; [3; 3]])) =
+  [ [sd 42 0; sd 42 1; sd 42 2]; [sd 42 3]; [sd 42 4; sd 42 5] ] /\
+  arrays_ok 42 [[2; 2; 1]; [4]; [3; 3]]
+            [ [sd 42 0; sd 42 1; sd 42 2]; [sd 42 3]; [sd 42 4; sd 42 5] ] 6 = true.
+Proof. vm_compute. split; reflexivity. Qed.
+
+Example C23_ex_reconstruct :
+  let '(n, g1) := mk_random (fresh_gen 42) [3; 3] in
+  r_seeds n = [sd 42 0; sd 42 1] /\ r_seeds (fst (reconstruct g1 n)) = [sd 42 2; sd 42 3].
+Proof. vm_compute. split; reflexivity. Qed.
+
+Print Assumptions C23_seeds_fixed.
+Print Assumptions C23_rebuild_same.
+Print Assumptions C23_generator_advances.
+Print Assumptions C23_reduce_roundtrip.
+Print Assumptions C23_reconstruct_respawns_refuted.
+Print Assumptions C23_reduce_without_cache_differs.
